@@ -94,13 +94,53 @@ func init() {
 					continue
 				}
 				ob := otherBranch(g, fi, s)
-				if ob == nil {
+				// `if At(k) == nil { Set…; continue }` followed by the conflict report: the other edge is what
+				// follows the if statement in its block
+				var obRest []ast.Stmt
+				var obTop ast.Node
+				obBefore := map[ast.Node]bool{}
+				if is := g.At.(*ast.IfStmt); ob == nil && is.Else == nil && fi.within(s, is.Body) && terminates(is.Body) {
+					var list []ast.Stmt
+					switch p := fi.parent[is].(type) {
+					case *ast.BlockStmt:
+						list, obTop = p.List, p
+					case *ast.CaseClause:
+						list, obTop = p.Body, p
+					}
+					for i, st := range list {
+						if st == ast.Stmt(is) {
+							obRest = list[i+1:]
+							for _, b := range list[:i+1] {
+								obBefore[b] = true
+							}
+						}
+					}
+				}
+				if ob == nil && len(obRest) == 0 {
 					r.Bad(k, s.Pos(), "duplicate test at %s has no branch for the conflicting case", c.Pos(at.Pos()))
 					continue
 				}
 				// the conflicting branch must unconditionally add bindingConflictError to the collector
 				found := false
-				for _, call := range callsIn(ob) {
+				var obCalls []*ast.CallExpr
+				if ob != nil {
+					obCalls = callsIn(ob)
+				}
+				for _, st := range obRest {
+					obCalls = append(obCalls, callsIn(st)...)
+				}
+				unconditional := func(call *ast.CallExpr) bool {
+					if ob != nil {
+						return fi.unconditionalIn(call, ob)
+					}
+					for _, g2 := range fi.GuardsWithin(call, obTop) {
+						if !obBefore[g2.At] {
+							return false
+						}
+					}
+					return !fi.inNestedLoopOrLit(call, obTop)
+				}
+				for _, call := range obCalls {
 					if fi.calleeName(call) != fnECAdd {
 						continue
 					}
@@ -114,7 +154,7 @@ func init() {
 					if !okRecv || len(call.Args) != 1 || fi.isCall(fi.deref(call.Args[0]), pathW+".bindingConflictError") == nil {
 						continue
 					}
-					if fi.unconditionalIn(call, ob) {
+					if unconditional(call) {
 						found = true
 					}
 				}
